@@ -2,7 +2,7 @@
 From Coq Require Import ZArith List Bool Lia.
 Import ListNotations.
 Require Import PV.Model.GraphAlg PV.Proofs.GraphSpec PV.Proofs.GraphBounded PV.Proofs.MisProofs.
-Require Import PV.Proofs.ParMisProofs PV.Proofs.ParMisTerm.
+Require Import PV.Proofs.ParMisProofs PV.Proofs.ParMisTerm PV.Proofs.CmisProofs.
 
 (* serial maximal independent set: for EVERY symmetric graph in CSR form, of any size, and any
    three distinct codes: every vertex is decided, the set is independent and maximal *)
@@ -64,6 +64,18 @@ Theorem C18_mis_parallel_terminates : forall (N : nat) (Ap Aj : list Z),
   exists r, mis_parallel (Z.of_nat N) Ap Aj WtZ active c f x0 y (-1)%Z = Some r.
 Proof. intros. eapply mis_parallel_terminates; eauto. Qed.
 Print Assumptions C18_mis_parallel_terminates.
+
+(* vertex_coloring_mis (repeated serial maximal independent sets with the shifting codes -1-K / K / -2-K),
+   EVERY symmetric graph of any size: the model returns within its fuel n+1, every vertex gets a colour in
+   [0, K) and adjacent vertices get different colours *)
+Theorem C18_coloring_mis_proper : forall (N : nat) (Ap Aj : list Z),
+  (forall i, (0 <= i < Z.of_nat N)%Z -> forall j, In j (nbrs Ap Aj i) -> (0 <= j < Z.of_nat N)%Z) ->
+  (forall i j, (0 <= i < Z.of_nat N)%Z -> In j (nbrs Ap Aj i) -> In i (nbrs Ap Aj j)) ->
+  exists x K, coloring_mis (Z.of_nat N) Ap Aj = Some (x, K) /\
+    length x = N /\ (forall k, (0 <= k < Z.of_nat N)%Z -> (0 <= get x k < K)%Z) /\
+    (forall i j, (0 <= i < Z.of_nat N)%Z -> In j (nbrs Ap Aj i) -> j <> i -> get x j <> get x i).
+Proof. exact coloring_mis_correct. Qed.
+Print Assumptions C18_coloring_mis_proper.
 
 (* bounded theorems: ALL symmetric graphs on <= 4 vertices (with and without stored diagonal),
    all weight vectors over {0,1,2} (ties included), all seeds / centre sets; the models never
